@@ -256,7 +256,22 @@ func RunC20(cfg simrt.Config, o world.Opts) *world.Result {
 	}
 	s.Inline(func() {
 		before := progen.Gen(progen.Options{MaxFiles: 3, MaxDefs: 5, WantService: true, Unions: true, Exceptions: true, Defaults: true, Consts: true})
+		// a twin: the same content under the same base name in another directory, edited
+		// the same way (two files then yield textually identical diagnostics)
+		twinOf, twin := -1, -1
+		if simrt.Flip("c20.twin", 0.25) {
+			twinOf = ch("c20.twin-of", len(before.Files))
+			dir := "tw"
+			if d := before.Files[twinOf].Dir; d != "" && ch("c20.twin-dir", 2) == 1 {
+				dir = d + "/tw"
+			}
+			twin = before.AddTwin(twinOf, dir)
+			res.Count("c20.twin-files", 1)
+		}
 		after := before.Clone()
+		if twin >= 0 {
+			after.Files[twin].Deleted = true // out of the edits' reach; re-made from its original below
+		}
 		var script []*progen.Edit
 		n := ch("edits.n", 6) // number of edits wanted (0 = identical versions)
 		hasAdd, hasDel := false, false
@@ -280,6 +295,12 @@ func RunC20(cfg simrt.Config, o world.Opts) *world.Result {
 			}
 			script = append(script, e)
 			res.Count("c20.edit."+e.Kind, 1)
+		}
+		if twin >= 0 {
+			after.SyncTwin(twinOf, twin)
+			if _, err := after.Dump(); err != nil {
+				panic("twin does not compile: " + err.Error())
+			}
 		}
 		expected := progen.Breaking(before, after)
 		if o.Trace {
